@@ -84,6 +84,7 @@ class Spec:
     """Subclasses set self.oracle(st, lab, info, o, bad) and may override menus."""
     name = "lifecycle"
     oracle_name = "none"
+    go_on_after_refusal = False
 
     def __init__(self, client, depth, upgraded=False, sids=(1, 3), promised=2):
         self.client = client
@@ -209,8 +210,13 @@ class Spec:
             st.dead = True
             return Step(out, viols, prune=True)
         if o.kind == "raise" and info["dir"] == "l":
-            # a refused local call may leave hidden state behind (the library marks the stream or the
-            # connection closed): what happens afterwards is C01's business, this path ends here
+            if self.go_on_after_refusal and not viols and not o.via_fsm:
+                # refused for its arguments or by a rule checked before any state machine moved (trailers without
+                # END_STREAM, a header list that fails validation, a window that is too small): nothing may have
+                # changed, the model has not moved either, the path goes on
+                return Step(out, viols)
+            # an input the stream or connection state machine refuses marks that machine CLOSED without a frame being
+            # sent (C01's known finding): what happens afterwards is C01's business, this path ends here
             st.dead = True
             return Step(out, viols, prune=True)
         if viols:
